@@ -89,7 +89,10 @@ def rt_history_strategy(tier):
             bad = gen.pick((2, bad), (1, st.tuples(st.just("wb-rounds"), gen.blob(8))))
         return st.tuples(st.lists(gen.pick((4, good), (1, bad)), min_size=2, max_size=6), st.booleans()).map(
             lambda t: dict(c, sib=t[1], calls=tuple(t[0]) + (("rt", bytes(range(n))), ("tr", bytes(range(n))))))
-    return CI.config_strategy().flatmap(with_calls)
+    # Bits-typed keys (one key vector shared by all objects of a case) are rare in the general mix: one case in five takes them
+    bits_keyed = gen.pick((2, gen.blob(32).map(lambda k: {"cipher": "serpent", "form": "bits", "kbits": 256, "key": k})),
+                          (1, st.tuples(gen.blob(32), gen.blob(16)).map(lambda t: {"cipher": "tf256", "form": "bits", "key": t[0], "tweak": t[1]})))
+    return gen.pick((4, CI.config_strategy()), (1, bits_keyed)).flatmap(with_calls)
 
 
 def roundtrip_strategy(tier):
